@@ -21,6 +21,9 @@
 
 #include "ref/refnum.hpp"
 
+#ifdef VERIF_COVERAGE
+extern "C" void __gcov_dump(void);
+#endif
 namespace mc {
 
 using ref::bytes;
@@ -207,6 +210,9 @@ void parallel_for(size_t n, int workers, const std::string& dir, const std::stri
             }
             slots[w] = 0;
             fclose(out);
+#ifdef VERIF_COVERAGE
+            __gcov_dump();
+#endif
             _exit(0);
         }
         pids[w] = p;
